@@ -62,6 +62,7 @@ def step (s : St) (line : String) : St × String :=
           else if Drv.LayP.showP t (Lay.readD tp img o') != deep b.mem t o then
             some s!"PROOF-MODEL-DIFFERS read {Drv.LayP.showP t (Lay.readD tp img o')}"
           else none
+        | none, _ => Drv.LayP.checkRefObject t v b.mem o (vsize t v)      -- the type holds references
         | _, _ => none
       let pv := match Drv.LayP.valP t v with
         | some vp => (hname, vp) :: s.pvals
